@@ -154,8 +154,11 @@ def mutants(rng, kind, b, quick):
                     m = bytearray(b)
                     m[off + 8 + fo] = v
                     out.append(("field8:IHDR", fix_crcs(bytes(m))))
-        if name in (b"PLTE", b"tRNS", b"fdAT", b"fcTL", b"iCCP", b"caBX", b"acTL"):
-            for newln in (0, 1, 2, 3, 5, max(0, ln - 1)):
+        if name not in (b"IHDR", b"IDAT", b"IEND"):
+            # every payload length of short chunks (each boundary between the fields of a structured payload is one of them),
+            # a spread of lengths of long ones
+            cuts = set(range(0, min(ln, 96))) | {max(0, ln - 1), ln // 2} | ({rng.randrange(ln) for _ in range(6)} if ln > 96 else set())
+            for newln in sorted(cuts):
                 if newln < ln:
                     body = name + b[off + 8:off + 8 + newln]
                     out.append(("payload-cut:" + name.decode(), b[:off] + struct.pack(">I", newln) + body + struct.pack(">I", zlib.crc32(body) & 0xffffffff) + b[end:]))
@@ -169,7 +172,7 @@ def run(rep):
     fz = os.path.join(bindir, "fuzzrun")
     rep.rule = ("structured corpus (all 15 colour/depth pairs, interlaced or not, APNG, iCCP, caBX, chunk-rich) x every truncation, single-byte "
                 "corruptions (with and without CRC repair), chunk deletion / duplication / swap, length-field edits, 32-bit and 8-bit field edits of "
-                "IHDR/fcTL/acTL, payload cuts of PLTE/tRNS/fdAT/fcTL/iCCP/caBX/acTL x fix_errors x option vectors; plus hand-built absurd headers and "
+                "IHDR/fcTL/acTL, payload cuts at EVERY length of every ancillary / palette / animation chunk x fix_errors x option vectors; plus hand-built absurd headers and "
                 "RawImage tuples. Non-trivial = distinct mutant that differs from its parent and passes the signature check.")
     files = corpus(rng)
     lines = []
@@ -179,7 +182,9 @@ def run(rep):
     for kind, b in files:
         ms = mutants(rng, kind, b, quick)
         if quick:
-            ms = rng.sample(ms, min(len(ms), 420))
+            # structure-aware mutants are always run; the bulk byte-level ones are sampled
+            bulk = [m for m in ms if m[0] in ("trunc", "byte", "byte+crc")]
+            ms = [m for m in ms if m[0] not in ("trunc", "byte", "byte+crc")] + rng.sample(bulk, min(len(bulk), 300))
         for mk, mb in ms:
             d = vlib.digest(mb.hex())
             if d in seen:
